@@ -16,6 +16,7 @@ from ..core import Corr
 from ..coqrun import cz, cstr, clist, copt, cbool, cnat
 from ..translate import writer_tables
 from ..translate.writer_tables import cb64
+from . import text_history
 
 PID = "C08"
 ALLOWED_AXIOMS = set()
@@ -32,6 +33,7 @@ TRUSTED = [
     "modelled-not-verified: binary64 multiply/divide round-to-nearest-even and CPython '{:.Nf}' (coq/Common/WBin64.v, exact in Z), str.format on {field} templates, str methods, np.split, Counter+sorted",
     "external values supplied by the harness: str(mass), constants.conversion_factor for nm/pm, guess_connectivity (sdf bonds)",
     "the independent per-dtype reader (oracle) in this file, incl. its hand-written table of each program's real/ghost spelling and unit words",
+    "order-independence oracle (harness/props/text_history.py): a call sequence on one molrec / one live Molecule against the reversed sequence in a fresh interpreter",
 ]
 ASSUMPTIONS = [
     "molecular and fragment charges are integral (int() truncation and str(float) of fractional charges are outside the model)",
@@ -143,12 +145,20 @@ def gen_arrays(rng, nat=None, max_frag=4, labels=True, allow_ghost=True, extras=
                 a, b = sorted(rng.sample(range(nat), 2))
                 bonds.add((a, b))
             kw["connectivity"] = [[a, b, rng.choice([1, 1, 2, 3])] for a, b in sorted(bonds)]
-        if rng.random() < 0.15:
+        r = rng.random()
+        if r < 0.15:
             # an isotope on the first hydrogen, if any
             if 1 in elez:
                 elea = [None] * nat
                 elea[elez.index(1)] = 2
                 kw["elea"] = elea
+        elif r < 0.27:
+            # a mass that is no isotope's (mass number -1 in the record: "{elea}" prints as nothing)
+            from qcelemental import periodictable
+            i = rng.randrange(nat)
+            mass = [None] * nat
+            mass[i] = round(float(periodictable.to_mass(elez[i])) + rng.choice([0.3, 0.25, 0.4]), 3)
+            kw["mass"] = mass
     return kw
 
 
@@ -184,6 +194,9 @@ CORPUS_ARRAYS = [
     {"geom": [0.1, 0.2, 0.3], "elez": [2], "units": "Angstrom", "input_units_to_au": 1.8897},
     {"geom": [0.0, 0.0, 0.0, 1.0, 1.0, 1.0], "elez": [1, 1], "units": "Angstrom", "real": [False, False], "fix_symmetry": "c1",
      "fix_orientation": True},
+    # a mass that is no isotope's (mass number -1: "{elea}" prints as nothing), an isotope, a ghost with a label
+    {"geom": [0.0, 0.0, 0.0, 0.0, 0.0, 1.8, 0.0, 1.7, -0.3], "elez": [8, 1, 1], "units": "Bohr", "mass": [16.3, None, None],
+     "elea": [None, 2, None], "real": [True, True, False], "elbl": ["", "", "_g"], "molecular_multiplicity": 2},
 ]
 
 
@@ -687,6 +700,7 @@ def corpus_cfgs():
     out.append({"dtype": "xyz", "units": None, "afmt": "{elez}@{mass}", "gfmt": "", "width": 17, "prec": 12})
     out.append({"dtype": "xyz+", "units": "Bohr", "afmt": None, "gfmt": "Gh({elem}{elbl})", "width": 10, "prec": 6})
     out.append({"dtype": "nglview-sdf", "units": None, "afmt": None, "gfmt": "X", "width": 17, "prec": 12})
+    out.append({"dtype": "xyz+", "units": None, "afmt": "{elea}{elem}", "gfmt": "@{elea}{elem}{elbl}", "width": 12, "prec": 8})
     out.append({"dtype": "nosuchprogram", "units": None, "afmt": None, "gfmt": None, "width": 17, "prec": 12})
     return out
 
@@ -706,6 +720,48 @@ def run_case(arrays, cfg, via):
     conv = _conv(molrec, units)
     conn = sdf_connectivity(molrec, out) if d == "nglview-sdf" else []
     return molrec, out, conv, conn
+
+
+def branch_hits(molrec, cfg):
+    """which branches of the model a successful case exercises (visible in the evidence as corr.hit counts)"""
+    d = cfg["dtype"].lower()
+    ghosts = not all(bool(r) for r in molrec["real"])
+    hits = []
+    if d in ("psi4", "qchem"):
+        hits.append(f"{d}:{'fragment-blocks' if len(molrec['fragment_separators']) else 'single-fragment'}")
+    if d == "psi4":
+        hits.append(f"psi4:no_com={bool(molrec['fix_com'])},no_reorient={bool(molrec['fix_orientation'])}")
+    if d == "molpro":
+        hits.append("molpro:" + ("dummy-card" if ghosts else "no-dummy-card"))
+        hits.append("molpro:symmetry=" + str(molrec.get("fix_symmetry", "auto")).lower())
+    if d == "gamess":
+        hits.append("gamess:" + ("C1" if str(molrec.get("fix_symmetry", "C1")).strip().upper() == "C1" else "blank-card"))
+    if d == "nwchem":
+        hits.append("nwchem:" + ("symmetry-line" if molrec.get("fix_symmetry") else "no-symmetry-line"))
+        hits.append("nwchem:" + ("open-shell-keywords" if int(molrec["molecular_multiplicity"]) != 1 else "closed-shell"))
+    if ghosts:
+        hits.append(f"{d}:ghost" + (":suppressed" if cfg["gfmt"] == "" and d in ("xyz", "xyz+") else ""))
+    if -1 in [int(a) for a in molrec["elea"]]:
+        hits.append("elea=-1")
+    u = (cfg["units"] or DEFAULT_UNIT.get(d, "")).lower()
+    hits.append(f"factor:{molrec['units']}->{u}" + (":pinned" if "input_units_to_au" in molrec else ""))
+    return hits
+
+
+def history_spec(rng, live):
+    """one molecule, a shuffled sequence of calls: every dtype once plus the same dtype under the other unit right after"""
+    arrays, _ = gen_molrec(rng)
+    if live:
+        arrays.pop("input_units_to_au", None)
+    cfgs = []
+    for cfg in gen_cfgs(rng, False):
+        cfgs.append(cfg)
+        d = cfg["dtype"].lower()
+        if d not in ("turbomole", "nglview-sdf") and rng.random() < 0.5:
+            other = "Angstrom" if (cfg["units"] or DEFAULT_UNIT[d]).lower().startswith("b") else "Bohr"
+            cfgs.append(dict(cfg, units=other, prec=rng.choice(PRECS), width=rng.choice(WIDTHS)))
+    rng.shuffle(cfgs)
+    return {"arrays": arrays, "cfgs": cfgs, "live": live}
 
 
 def correspond(ctx):
@@ -739,6 +795,8 @@ def correspond(ctx):
         case = {"arrays": arrays, "cfg": cfg, "via": via}
         if out[0] == "Ok":
             corr.nontriv(case)
+            for h in branch_hits(molrec, cfg):
+                corr.hit(h)
         bad = oracle(molrec, cfg, out)
         if bad:
             corr.failures.append({"stream": "oracle", "case": case, "what": bad, "observed": list(out)})
@@ -748,6 +806,18 @@ def correspond(ctx):
         meta.append((stream, case, out))
         if stream != "corpus" and len(corr.samples) < 4 and rng.random() < 0.002:
             corr.sample({"input": case, "output": list(out)})
+    # ---- history: many calls on ONE molrec dict / ONE live Molecule, compared with a fresh interpreter in reverse order
+    nhist = 24 if ctx.thorough else 5
+    for k in range(nhist):
+        spec = history_spec(rng, live=(k % 2 == 1))
+        try:
+            bad = text_history.check_to_string(spec)
+        except Exception as e:
+            corr.errors.append(f"history stream: {e!r}")
+            continue
+        corr.count("history", len(spec["cfgs"]))
+        if bad:
+            corr.failures.append({"stream": "history", "case": spec, "what": bad, "observed": None})
     corr.sample({"input": {"arrays": CORPUS_ARRAYS[0], "cfg": corpus_cfgs()[0]}, "output": list(meta[0][2])})
     ctx.log(f"{len(terms)} cases through the implementation; evaluating the model")
     bad, errors = eval_with_retry(ctx, "C08", REQ, PRELUDE, "check_case", terms, 100 if not ctx.thorough else 200,
@@ -787,6 +857,9 @@ def search(ctx, corr, reasons):
 
 def replay(ctx, rp):
     case = rp["case"]
+    if rp.get("stream") == "history" or "cfgs" in case:
+        bad = text_history.check_to_string(case)
+        return {"input": case, "implementation": None, "oracle": bad, "fails": bool(bad)}
     molrec, out, conv, conn = run_case(case["arrays"], case["cfg"], case.get("via", "from_arrays"))
     bad = oracle(molrec, case["cfg"], out)
     return {"input": case, "implementation": list(out), "oracle": bad, "fails": bool(bad)}
@@ -799,24 +872,35 @@ TECHNIQUE = ("Coq proof over a hand-written Gallina model of to_string/_atoms_fo
 DESIGN_REF = "DESIGN.md §6 C08"
 LEVEL_TEXT = (
     "Machine-checked (Coq 8.16.1, no axioms) theorems about Model/Writers.v over the tables and unit-factor branch regenerated from "
-    "to_string.py on every run, for ALL molecules (any atom count, ghost pattern, labels, fragment structure) and configurations: "
-    "C08_atoms_listed_once_in_order (atom lines = visible atoms, once, in order, spelled by the dtype's real/ghost template, coordinates "
-    "= binary64 product with the unit factor; sdf: all atoms), C08_chgmult_stated (where each program reads total charge and "
-    "multiplicity), C08_fragments_stated (psi4/qchem: k-th block = '--', k-th fragment charge/multiplicity, its atoms), "
+    "to_string.py on every run, for ALL molecules (any atom count, ghost pattern, labels, fragment structure) and configurations. "
+    "On structured lines: C08_atoms_listed_once_in_order (atom lines = visible atoms, once, in order, spelled by the dtype's real/ghost "
+    "template, coordinates = binary64 product with the unit factor; sdf: all atoms), C08_chgmult_stated (where each program reads total "
+    "charge and multiplicity), C08_fragments_stated (psi4/qchem: k-th block = '--', k-th fragment charge/multiplicity, its atoms), "
     "C08_unit_word_is_written, C08_announced_unit_is_written_unit (every dtype x every spelling of bohr/angstrom/nm/pm x stored unit x "
     "pinned input_units_to_au: the announced word's meaning is the unit the factor converts to), C08_factor_table, C08_sdf_is_angstrom, "
     "C08_program_spellings (generated templates and default units = hand-written table of program conventions), "
     "C08_molpro_ghosts_declared / C08_molpro_dummy_card_lists_the_ghosts, C08_printed_digits_nearest and C08_converted_value_nearest "
-    "(printed digits = nearest integer to |v|*10^prec; written value = exact product rounded once to binary64). The model is tied to the "
-    "implementation on every run by BYTE-EXACT comparison of the rendered text and of the keyword dictionary (all 14 dtypes, incl. "
+    "(printed digits = nearest integer to |v|*10^prec; written value = exact product rounded once to binary64). On the rendered "
+    "CHARACTERS, re-read by an independent reader: C08_psi4_/C08_xyz_/C08_xyzplus_text_states_the_molecule (the reader model of C07, "
+    "tied to from_string), C08_qchem_text_states_the_molecule ($molecule section + input_bohr keyword: atoms, '@' ghosts, printed "
+    "coordinates, unit, total and per-fragment charge/multiplicity, any number of fragments), C08_block_text_states_the_atoms (nwchem, "
+    "cfour, orca, madness, terachem: header lines / one 'label x y z' line per atom in order under the program's real/ghost spelling "
+    "with the printed coordinates / trailer lines), C08_molpro_text_states_the_atoms (atoms between 'geometry={' and '}', dummy / charge / "
+    "spin cards after). The model is tied to the implementation on every run by BYTE-EXACT comparison of "
+    "the rendered text and of the keyword dictionary (all 14 dtypes, both entry points to_string and Molecule.to_string, incl. "
     "exceptions raised), and an independent per-dtype reader re-derives atoms, spellings, coordinates, charge, multiplicity, fragment "
     "blocks and announced unit from the implementation's own output.")
 LEVEL_NOTE = (
-    "Theorems are about structured lines (fixed text / charge-multiplicity line / '--' / atom line); the rendering of those lines to "
-    "characters is definitional in the model and tied only by the byte-exact correspondence (no theorem re-parses the characters). "
+    "Clause map: atoms once/in order/spelling -> atoms_listed_once_in_order + program_spellings (lines, 14 dtypes), on characters for "
+    "psi4, xyz, xyz+, qchem, nwchem, cfour, orca, madness, terachem; conversion and precision -> is_view + factor_table + "
+    "converted_value_nearest + printed_digits_nearest; charge/multiplicity -> chgmult_stated (+ fragments_stated; characters: psi4, xyz+, "
+    "qchem); announced unit -> unit_word_is_written + announced_unit_is_written_unit + sdf_is_angstrom. Gaps: gamess, mrchem, "
+    "turbomole, sdf have theorems on structured lines only (their rendering to characters is definitional in the model and tied by the "
+    "byte-exact correspondence and the Python reader, no theorem re-parses it); non-default atom_format/ghost_format only on lines. "
     "Trusted: Coq kernel + vm_compute; the hand-written line assembly (tied differentially); the translator; Z-level binary64 "
-    "multiply/divide and '{:.Nf}' models (differentially exact, not proved against IEEE/CPython); str(mass), conversion_factor for nm/pm "
-    "and guess_connectivity are taken from the implementation as external inputs. Scope: integral charges; ASCII; override templates "
+    "multiply/divide and '{:.Nf}' models (differentially exact, not proved against IEEE/CPython); the Gallina readers read_qchem / "
+    "read_block / read_molpro are specifications of how those programs read a block (hand-written); str(mass), conversion_factor for nm/pm and "
+    "guess_connectivity are taken from the implementation as external inputs. Scope: integral charges; ASCII; override templates "
     "without format specs; terachem/turbomole/sdf have no slot for charge/multiplicity and madness states only open/closed shell "
     "(the theorem says exactly that); requests outside {Bohr, Angstrom, nm, pm} are outside the property (e.g. units='au' writes "
     "astronomical units under the word 'au').")
